@@ -34,6 +34,51 @@ impl<'a> Exec<'a> {
             sp = sp.with_supervisor(self.sup_mailbox.as_ref().expect("supervisor"));
         }
         let fut = sp.into_future();
+        // Worker threads parked in a Drop: make sure a worker that is not parked takes the task. The
+        // dispatcher's queue is shared; a send wakes only the longest-waiting receiver, which may be
+        // a parked worker (whose wake-up is then used up: it cannot re-register while parked). Send
+        // wake-up tasks until they have all been run: a wake-up task that ran was taken by a worker
+        // that is not parked, and that worker took everything queued before it as well.
+        let parked = self.model.held_drops();
+        if parked > 0 && parked < self.cfg.workers {
+            let mut kicks: Vec<SpawnFuture<Kick>> = Vec::new();
+            let start = std::time::Instant::now();
+            let mut patience = Duration::from_micros(500);
+            'kick: loop {
+                kicks.push(cluster.spawn(|| Kick, ()).into_future());
+                let round = std::time::Instant::now();
+                loop {
+                    let mut bad = false;
+                    let waker = self.waker.clone();
+                    kicks.retain_mut(|k| match util::poll_once(Pin::new(k), &waker) {
+                        Poll::Ready(Err(SpawnError::Start(0))) => false,
+                        Poll::Ready(_) => {
+                            bad = true;
+                            false
+                        }
+                        Poll::Pending => true,
+                    });
+                    if bad {
+                        self.res.machinery = Some("wake-up task did not fail its start as designed".into());
+                        self.aborted = true;
+                        break 'kick;
+                    }
+                    if kicks.is_empty() {
+                        break 'kick;
+                    }
+                    if start.elapsed() > self.timing.watchdog {
+                        self.res.machinery = Some("no free worker took the wake-up tasks".into());
+                        self.aborted = true;
+                        break 'kick;
+                    }
+                    if round.elapsed() > patience {
+                        patience *= 2;
+                        break;
+                    }
+                    std::thread::yield_now();
+                }
+            }
+        }
         let mut ra = RActor::empty(false);
         ra.fut = Some(fut);
         while self.ra.len() < id {
